@@ -36,13 +36,11 @@ class Drv:
         self.max_passes = 0
 
     def fresh(self, ell):
-        """caller-built ellipsoids are re-built for every use (the last two stay alive): short-lived objects, recycled ids"""
+        """caller-built ellipsoids are re-built for every use and dropped afterwards: short-lived objects, recycled ids"""
         en, E = ell
         if not hasattr(E, "_verif_defn"):
             return ell
-        e = alpha.build(type(E), *E._verif_defn)
-        self.keep = (getattr(self, "keep", []) + [e])[-2:]
-        return (en, e)
+        return (en, alpha.build(type(E), *E._verif_defn))     # not kept alive: the next one built may get this one's id
 
     def inv_event(self, z1, e1, n1, z2, e2, n2, hemi, ell, tag):
         gc, cv, gd = self.gc, self.cv, self.gd
